@@ -1,7 +1,7 @@
 #!/bin/bash
 # try_mutation.sh <patch.diff> <prop> [tier]: apply a seeded change to /repo, run the check, undo it.
 set -u
-PATCH="$1"; P="$2"; TIER="${3:-quick}"
+PATCH="$(realpath "$1")"; P="$2"; TIER="${3:-quick}"
 if [ -n "$(git -C /repo status --porcelain)" ]; then echo "refusing: /repo is not clean"; exit 2; fi
 trap 'git -C /repo checkout -q -- . ; git -C /repo clean -fdq' EXIT
 git -C /repo apply "$PATCH" || { echo "patch does not apply"; exit 2; }
